@@ -154,7 +154,7 @@ def lean_build(prop_modules, need_driver=True):
             blocks = re.split(r"(?m)^(?=')", out)
             seen = {}
             for b in blocks:
-                m = re.match(r"'([^']+)' (depends on axioms: \[(.*?)\]|does not depend on any axioms)", b, flags=re.S)
+                m = re.match(r"'(.+?)' (depends on axioms: \[(.*?)\]|does not depend on any axioms)", b, flags=re.S)
                 if m:
                     axs = set(a.strip() for a in (m.group(3) or "").replace("\n", " ").split(",") if a.strip())
                     seen[m.group(1)] = axs
